@@ -168,52 +168,51 @@ Proof.
   induction d as [|[k y] t IH]; [reflexivity|]. simpl. rewrite IH. reflexivity.
 Qed.
 
-Lemma core_op_rel full x op root p :
-  is_rel_op op = true -> core_op full x op root p = negb (fans_out root p) || plain_scalar x.
+Lemma core_op_rel x op root p :
+  is_rel_op op = true -> core_op strict x op root p = negb (fans_out root p) || plain_scalar x.
 Proof. intro H. destruct x; simpl; rewrite H; reflexivity. Qed.
 
-Lemma core_op_ne full x root p :
-  core_op full x "$ne" root p = negb (fans_out root p) || plain_scalar x.
+Lemma core_op_ne x root p :
+  core_op strict x "$ne" root p = negb (fans_out root p) || plain_scalar x.
 Proof. destruct x; reflexivity. Qed.
 
-Lemma core_op_in full x root p :
-  core_op full x "$in" root p =
+Lemma core_op_in x root p :
+  core_op strict x "$in" root p =
   match x with VArr vs => negb (fans_out root p) || forallb plain_scalar vs | _ => false end.
 Proof. destruct x; reflexivity. Qed.
 
-Lemma core_op_nin full x root p :
-  core_op full x "$nin" root p =
+Lemma core_op_nin x root p :
+  core_op strict x "$nin" root p =
   match x with VArr vs => negb (fans_out root p) || forallb plain_scalar vs | _ => false end.
 Proof. destruct x; reflexivity. Qed.
 
-Lemma core_op_exists full x root p :
-  core_op full x "$exists" root p =
-  negb (fans_out root p)
+Lemma core_op_exists x root p :
+  core_op strict x "$exists" root p =
+  negb (fans_out root p) || false
   || negb (existsb (fun c => match c with VArr [] => true | _ => false end) (rlookup root p)).
 Proof. destruct x; reflexivity. Qed.
 
-Lemma core_op_type full x root p :
-  core_op full x "$type" root p =
+Lemma core_op_type x root p :
+  core_op strict x "$type" root p =
   match type_spec x with
   | Some spec =>
-      negb (existsb (fun t => (t =? ty_null)%Z) (snd spec))
-      && (negb (fans_out root p) || negb (existsb (fun t => (t =? ty_array)%Z) (snd spec)))
+      negb (fans_out root p) || false || negb (existsb (fun t => (t =? ty_array)%Z) (snd spec))
   | None => false
   end.
 Proof. destruct x; reflexivity. Qed.
 
-Lemma core_op_size full x root p :
-  core_op full x "$size" root p =
-  negb (fans_out root p) && match size_arg x with Ok _ => true | _ => false end.
+Lemma core_op_size x root p :
+  core_op strict x "$size" root p =
+  (negb (fans_out root p) || false) && match size_arg x with Ok _ => true | _ => false end.
 Proof. destruct x; reflexivity. Qed.
 
-Lemma core_op_mod full x root p :
-  core_op full x "$mod" root p = match mod_spec x with Some _ => true | None => false end.
+Lemma core_op_mod x root p :
+  core_op strict x "$mod" root p = match mod_spec x with Some _ => true | None => false end.
 Proof. destruct x; reflexivity. Qed.
 
-Lemma core_op_bits full x op root p :
+Lemma core_op_bits x op root p :
   is_bits_op op = true ->
-  core_op full x op root p = match parse_bit_mask x with Ok _ => true | _ => false end.
+  core_op strict x op root p = match parse_bit_mask x with Ok _ => true | _ => false end.
 Proof.
   intro H. unfold is_bits_op, bits_ops in H. simpl in H.
   repeat (apply orb_prop in H; destruct H as [H|H]); try discriminate;
@@ -229,30 +228,28 @@ Lemma ref_op_all x root p :
   end.
 Proof. destruct x; reflexivity. Qed.
 
-Definition not_array (v : value) : bool := match v with VArr _ => false | _ => true end.
-
-Lemma core_op_all full x root p :
-  core_op full x "$all" root p =
+Lemma core_op_all x root p :
+  core_op strict x "$all" root p =
   match x with
-  | VArr vs => negb (fans_out root p) && forallb not_array vs
+  | VArr vs => negb (fans_out root p)
   | _ => false
   end.
 Proof. destruct x; reflexivity. Qed.
 
-Lemma core_not_loop full root p l :
+Lemma core_not_loop root p l :
   (fix go (exps : list (string * value)) : bool :=
      match exps with
      | [] => true
-     | (k, y) :: t => is_op k && core_op full y k root p && go t
-     end) l = forallb (fun e => is_op (fst e) && core_op full (snd e) (fst e) root p) l.
+     | (k, y) :: t => is_op k && core_op strict y k root p && go t
+     end) l = forallb (fun e => is_op (fst e) && core_op strict (snd e) (fst e) root p) l.
 Proof. induction l as [|[k y] t IH]; [reflexivity|]. simpl. rewrite <- IH. reflexivity. Qed.
 
-Lemma core_op_not full x root p :
-  core_op full x "$not" root p =
+Lemma core_op_not x root p :
+  core_op strict x "$not" root p =
   negb (fans_out root p) &&
   match x with
   | VDoc [] => false
-  | VDoc exps => forallb (fun e => is_op (fst e) && core_op full (snd e) (fst e) root p) exps
+  | VDoc exps => forallb (fun e => is_op (fst e) && core_op strict (snd e) (fst e) root p) exps
   | _ => false
   end.
 Proof.
@@ -264,9 +261,9 @@ Definition elem_cond_ref (e : value) (kv : string * value) : bool :=
   if is_op (fst kv) then ref_op (snd kv) (fst kv) (elem_root e) elem_path
   else ref_field ref_op (snd kv) (elem_root e) (elem_path ++ split_path (fst kv)).
 
-Definition elem_cond_core (full : bool) (e : value) (kv : string * value) : bool :=
-  if is_op (fst kv) then core_op full (snd kv) (fst kv) (elem_root e) elem_path
-  else core_field (core_op full) (snd kv) (elem_root e) (elem_path ++ split_path (fst kv)).
+Definition elem_cond_core (e : value) (kv : string * value) : bool :=
+  if is_op (fst kv) then core_op strict (snd kv) (fst kv) (elem_root e) elem_path
+  else core_field (fan_of strict) (core_op strict) (snd kv) (elem_root e) (elem_path ++ split_path (fst kv)).
 
 Lemma ref_op_elem x root p :
   ref_op x "$elemMatch" root p =
@@ -293,24 +290,24 @@ Proof.
   rewrite (H a) by (left; reflexivity). rewrite IH; [reflexivity|]. intros b Hb. apply H. right. exact Hb.
 Qed.
 
-Lemma core_elem_loop full e l :
+Lemma core_elem_loop e l :
   (fix go (q : list (string * value)) : bool :=
      match q with
      | [] => true
      | (k, y) :: t =>
-         (if is_op k then core_op full y k (elem_root e) elem_path
-          else core_field (core_op full) y (elem_root e) (elem_path ++ split_path k)) && go t
-     end) l = forallb (elem_cond_core full e) l.
+         (if is_op k then core_op strict y k (elem_root e) elem_path
+          else core_field (fan_of strict) (core_op strict) y (elem_root e) (elem_path ++ split_path k)) && go t
+     end) l = forallb (elem_cond_core e) l.
 Proof. induction l as [|[k y] t IH]; [reflexivity|]. cbn [forallb]. rewrite <- IH. reflexivity. Qed.
 
-Lemma core_op_elem full x root p :
-  core_op full x "$elemMatch" root p =
+Lemma core_op_elem x root p :
+  core_op strict x "$elemMatch" root p =
   negb (fans_out root p) &&
   match x with
   | VDoc [] => false
   | VDoc q =>
       forallb (fun c => match c with
-                        | VArr es => forallb (fun e => forallb (elem_cond_core full e) q) es
+                        | VArr es => forallb (fun e => forallb (elem_cond_core e) q) es
                         | _ => true
                         end) (rlookup root p)
   | _ => false
@@ -325,14 +322,14 @@ Proof.
                                            match q with
                                            | [] => true
                                            | (k, y) :: t =>
-                                               (if is_op k then core_op full y k (elem_root e) elem_path
-                                                else core_field (core_op full) y (elem_root e)
+                                               (if is_op k then core_op strict y k (elem_root e) elem_path
+                                                else core_field (fan_of strict) (core_op strict) y (elem_root e)
                                                        (elem_path ++ split_path k)) && go t
                                            end) (kv0 :: d)) es
                                   | _ => true
                                   end) (rlookup root p)); [reflexivity|].
   f_equal. apply forallb_ext_in. intros c _. destruct c; try reflexivity.
-  apply forallb_ext_in. intros e _. exact (core_elem_loop full e (kv0 :: d)).
+  apply forallb_ext_in. intros e _. exact (core_elem_loop e (kv0 :: d)).
 Qed.
 
 (* the operators of the covered domain *)
@@ -340,7 +337,7 @@ Definition covered_ops : list string :=
   rel_ops ++ ["$ne"; "$in"; "$nin"; "$exists"; "$type"; "$size"; "$mod"; "$not"; "$all"; "$elemMatch"] ++ bits_ops.
 
 Lemma core_op_covered x op root p :
-  core_op false x op root p = true -> In op covered_ops.
+  core_op strict x op root p = true -> In op covered_ops.
 Proof.
   intro H.
   destruct (existsb (String.eqb op) covered_ops) eqn:E.
@@ -422,10 +419,10 @@ Section Leaf.
   Qed.
 
   Lemma leaf_rel x op :
-    is_rel_op op = true -> core_op false x op root p = true ->
+    is_rel_op op = true -> core_op strict x op root p = true ->
     eval_op x op d ps = Ok (ref_op x op root p).
   Proof.
-    intros Hop Hc. rewrite (core_op_rel false x op root p Hop) in Hc.
+    intros Hop Hc. rewrite (core_op_rel x op root p Hop) in Hc.
     rewrite (ref_op_rel x op root p Hop), (eval_comp d ps op x (rel_ops_cmp op Hop)).
     f_equal. rewrite <- (candidates_ref d ps (fun c => rel op c x) H1 H3 Hg).
     - apply existsb_ext_in. intros c _. apply holds_rel. apply rel_ops_cmp. exact Hop.
@@ -433,7 +430,7 @@ Section Leaf.
   Qed.
 
   Lemma leaf_ne x :
-    core_op false x "$ne" root p = true ->
+    core_op strict x "$ne" root p = true ->
     eval_op x "$ne" d ps = Ok (ref_op x "$ne" root p).
   Proof.
     intro Hc. rewrite core_op_ne in Hc. rewrite ref_op_ne.
@@ -468,7 +465,7 @@ Section Leaf.
   Qed.
 
   Lemma leaf_in x :
-    core_op false x "$in" root p = true ->
+    core_op strict x "$in" root p = true ->
     eval_op x "$in" d ps = Ok (ref_op x "$in" root p).
   Proof.
     intro Hc. rewrite core_op_in in Hc. rewrite ref_op_in.
@@ -477,7 +474,7 @@ Section Leaf.
   Qed.
 
   Lemma leaf_nin x :
-    core_op false x "$nin" root p = true ->
+    core_op strict x "$nin" root p = true ->
     eval_op x "$nin" d ps = Ok (ref_op x "$nin" root p).
   Proof.
     intro Hc. rewrite core_op_nin in Hc. rewrite ref_op_nin.
@@ -536,10 +533,10 @@ Section Leaf2.
   Hypothesis Hg : good_path p = true.
 
   Lemma leaf_exists x :
-    core_op false x "$exists" root p = true ->
+    core_op strict x "$exists" root p = true ->
     eval_op x "$exists" d ps = Ok (ref_op x "$exists" root p).
   Proof.
-    intro Hc. rewrite core_op_exists in Hc. rewrite ref_op_exists.
+    intro Hc. rewrite core_op_exists, orb_false_r in Hc. rewrite ref_op_exists.
     rewrite eval_op_eq. cbn [lookup_expr assoc expr_table String.eqb Ascii.eqb Bool.eqb].
     unfold match_exists, some_unexpanded. rewrite existsb_filter_nm.
     destruct (fans_out root p) eqn:Hf.
@@ -564,10 +561,10 @@ Section Leaf2.
   Qed.
 
   Lemma leaf_size x :
-    core_op false x "$size" root p = true ->
+    core_op strict x "$size" root p = true ->
     eval_op x "$size" d ps = Ok (ref_op x "$size" root p).
   Proof.
-    intro Hc. rewrite core_op_size in Hc. apply andb_prop in Hc. destruct Hc as [Hf Hs].
+    intro Hc. rewrite core_op_size, orb_false_r in Hc. apply andb_prop in Hc. destruct Hc as [Hf Hs].
     apply negb_true_iff in Hf. rewrite ref_op_size.
     rewrite eval_op_eq. cbn [lookup_expr assoc expr_table String.eqb Ascii.eqb Bool.eqb].
     unfold match_size. destruct (size_arg x) as [n| | | |]; try discriminate.
@@ -579,7 +576,7 @@ Section Leaf2.
   Proof. split; [reflexivity|]. intro a. reflexivity. Qed.
 
   Lemma leaf_mod x :
-    core_op false x "$mod" root p = true ->
+    core_op strict x "$mod" root p = true ->
     eval_op x "$mod" d ps = Ok (ref_op x "$mod" root p).
   Proof.
     intro Hc. rewrite core_op_mod in Hc. rewrite ref_op_mod.
@@ -599,10 +596,10 @@ Section Leaf2.
   Proof. split; [reflexivity|]. intro a. reflexivity. Qed.
 
   Lemma leaf_bits x op :
-    is_bits_op op = true -> core_op false x op root p = true ->
+    is_bits_op op = true -> core_op strict x op root p = true ->
     eval_op x op d ps = Ok (ref_op x op root p).
   Proof.
-    intros Hop Hc. rewrite (core_op_bits false x op root p Hop) in Hc.
+    intros Hop Hc. rewrite (core_op_bits x op root p Hop) in Hc.
     rewrite (ref_op_bits x op root p Hop).
     assert (E : eval_op x op d ps = match_bits d op ps x).
     { rewrite eval_op_eq. unfold is_bits_op, bits_ops in Hop. simpl in Hop.
@@ -637,35 +634,29 @@ Section Leaf3.
   Hypothesis Hg : good_path p = true.
 
   Lemma leaf_type x :
-    core_op false x "$type" root p = true ->
+    core_op strict x "$type" root p = true ->
     eval_op x "$type" d ps = Ok (ref_op x "$type" root p).
   Proof.
     intro Hc. rewrite core_op_type in Hc. rewrite ref_op_type.
     rewrite eval_op_eq. cbn [lookup_expr assoc expr_table String.eqb Ascii.eqb Bool.eqb].
     destruct (type_spec x) as [spec|] eqn:Hs; [|discriminate].
-    apply andb_prop in Hc. destruct Hc as [Hnull Harr]. apply negb_true_iff in Hnull.
+    rewrite orb_false_r in Hc.
     rewrite (match_type_spec d ps x spec Hs).
-    rewrite (unwind_ok (fun c => (fst spec && class_eqb (class_of c) CNumber)
-                                 || existsb (fun t => (t =? type_of c)%Z) (snd spec)))
-      by (intro c; reflexivity).
+    rewrite (unwind_ok (has_type spec))
+      by (intro c; unfold type_test, has_type; destruct (is_missing c); reflexivity).
     fold (candidates d ps). f_equal.
-    rewrite <- (candidates_ref d ps (has_type spec) H1 H3 Hg).
-    - apply existsb_ext_in. intros c _. unfold has_type.
-      destruct c; try reflexivity.
-      (* Missing: its type byte is the null type, which the domain excludes *)
-      simpl. rewrite andb_false_r. simpl. exact Hnull.
-    - apply (fan_or_scalar d ps (negb (existsb (fun t => (t =? ty_array)%Z) (snd spec)))); [exact Harr|].
-      intro Ha. apply negb_true_iff in Ha. split.
-      + reflexivity.
-      + intro a. unfold has_type. simpl. rewrite andb_false_r. simpl. exact Ha.
+    apply (candidates_ref d ps (has_type spec) H1 H3 Hg).
+    apply (fan_or_scalar d ps (negb (existsb (fun t => (t =? ty_array)%Z) (snd spec)))); [exact Hc|].
+    intro Ha. apply negb_true_iff in Ha. split.
+    - reflexivity.
+    - intro a. unfold has_type. simpl. rewrite andb_false_r. simpl. exact Ha.
   Qed.
 End Leaf3.
 
 (* ---------------------------------------------------------------- *)
-(* $all (no fan-out, operands that are not arrays) *)
+(* $all (no fan-out): every operand equals the field or one of its elements *)
 
-Lemma not_array_req a v : not_array v = true -> req (VArr a) v = false.
-Proof. intro H. unfold req, rel. destruct v; try discriminate; reflexivity. Qed.
+Definition not_array (v : value) : bool := match v with VArr _ => false | _ => true end.
 
 Lemma is_eq_sym a b : is_eq (compare a b) = is_eq (compare b a).
 Proof. rewrite (compare_antisym b a). destruct (compare b a); reflexivity. Qed.
@@ -673,48 +664,65 @@ Proof. rewrite (compare_antisym b a). destruct (compare b a); reflexivity. Qed.
 Lemma forallb_pointwise {A} (f g : A -> bool) l : (forall a, f a = g a) -> forallb f l = forallb g l.
 Proof. intro H. induction l as [|a l IH]; [reflexivity|]. simpl. rewrite H, IH. reflexivity. Qed.
 
-Lemma all_equiv vs y :
-  vs <> [] -> forallb not_array vs = true ->
-  (forall arr, y = VArr arr -> Forall (fun e => not_array e = true) arr) ->
-  existsb (fun field =>
-             (match field with
-              | VArr arr => forallb (fun value => existsb (fun element => is_eq (compare value element)) arr) vs
-              | _ => false
-              end) || forallb (fun item => is_eq (compare field item)) vs)
-          ((match y with VArr arr => arr | _ => [] end) ++ [y])
-  = forallb (fun v => existsb (fun c => req c v) (expand y)) vs.
+(* the callback of matchAll on one candidate (vs non-empty) *)
+Definition all_holds (vs : list value) (field : value) : bool :=
+  (match field with
+   | VArr arr =>
+       forallb (fun value => is_eq (compare value field)
+                             || existsb (fun element => is_eq (compare value element)) arr) vs
+   | _ => false
+   end) || forallb (fun item => is_eq (compare field item)) vs.
+
+Definition all_ref (vs : list value) (a : value) : bool :=
+  forallb (fun v => existsb (fun c => req c v) (expand a)) vs.
+
+Lemma all_holds_scalar vs e : not_array e = true -> all_holds vs e = true -> all_ref vs e = true.
 Proof.
-  intros Hne Hvs Hy.
+  intros Hn H. unfold all_holds in H. unfold all_ref.
+  assert (Hg : forallb (fun item => is_eq (compare e item)) vs = true).
+  { destruct e; try discriminate Hn; simpl in H; exact H. }
+  apply forallb_forall. intros v Hv. rewrite forallb_forall in Hg.
+  assert (Hx : expand e = [e]) by (destruct e; try reflexivity; discriminate).
+  rewrite Hx. simpl. rewrite req_compare, (Hg v Hv). reflexivity.
+Qed.
+
+Lemma all_equiv vs y :
+  (forall arr, y = VArr arr -> Forall (fun e => not_array e = true) arr) ->
+  existsb (all_holds vs) ((match y with VArr arr => arr | _ => [] end) ++ [y]) = all_ref vs y.
+Proof.
+  intro Hy.
   destruct y as [| | ? | ? | ? | ? ? | ? | ? | arr | ? ? | ? | ? | ? | ? ? | ? ?];
-    try (simpl; rewrite orb_false_r; apply forallb_pointwise; intro v; rewrite orb_false_r; symmetry; apply req_compare).
+    try (simpl; rewrite orb_false_r; unfold all_ref; apply forallb_pointwise; intro v; simpl;
+         rewrite orb_false_r; symmetry; apply req_compare).
   specialize (Hy arr eq_refl).
   rewrite existsb_app. cbn [existsb]. rewrite orb_false_r.
-  (* the array itself equals no (non-array) operand *)
-  assert (Hself : forallb (fun item => is_eq (compare (VArr arr) item)) vs = false).
-  { destruct vs as [|v vs]; [congruence|]. simpl in Hvs. apply andb_prop in Hvs. destruct Hvs as [Hv _].
-    pose proof (not_array_req arr v Hv) as Hr. rewrite req_compare in Hr.
-    cbn [forallb]. rewrite Hr. reflexivity. }
-  rewrite Hself, orb_false_r.
-  (* the reference side, without the array itself *)
-  assert (Href : forallb (fun v => existsb (fun c => req c v) (expand (VArr arr))) vs
-                 = forallb (fun value => existsb (fun element => is_eq (compare value element)) arr) vs).
-  { clear Hself Hne. induction vs as [|v vs IH]; [reflexivity|].
-    simpl in Hvs. apply andb_prop in Hvs. destruct Hvs as [Hv Hvs].
-    cbn [forallb]. rewrite (IH Hvs). f_equal. cbn [expand existsb]. rewrite (not_array_req arr v Hv). cbn [orb].
-    apply existsb_ext_in. intros e _. rewrite req_compare. apply is_eq_sym. }
-  rewrite Href.
-  (* an element equal to every operand makes the containment true *)
-  destruct (forallb (fun value => existsb (fun element => is_eq (compare value element)) arr) vs) eqn:Hc;
-    [apply orb_true_r|].
-  rewrite orb_false_r.
+  (* on the array itself the containment test is the reference *)
+  assert (Hself : all_holds vs (VArr arr) = all_ref vs (VArr arr)).
+  { unfold all_holds, all_ref.
+    assert (E : forallb (fun value => is_eq (compare value (VArr arr))
+                                      || existsb (fun element => is_eq (compare value element)) arr) vs
+                = forallb (fun v => existsb (fun c => req c v) (expand (VArr arr))) vs).
+    { apply forallb_pointwise. intro v. cbn [expand existsb]. rewrite req_compare, (is_eq_sym v (VArr arr)).
+      f_equal. apply existsb_ext_in. intros e _. rewrite req_compare. apply is_eq_sym. }
+    rewrite E.
+    destruct (forallb (fun v => existsb (fun c => req c v) (expand (VArr arr))) vs) eqn:Hr; [reflexivity|].
+    cbn [orb].
+    (* every operand equal to the array implies the reference *)
+    apply not_true_is_false. intro Hall. apply not_true_iff_false in Hr. apply Hr.
+    apply forallb_forall. intros v Hv. rewrite forallb_forall in Hall.
+    cbn [expand existsb]. rewrite req_compare, (Hall v Hv). reflexivity. }
+  rewrite Hself.
+  destruct (all_ref vs (VArr arr)) eqn:Hr; [apply orb_true_r|]. rewrite orb_false_r.
+  (* an element (not an array, by D1) satisfying the callback would satisfy the reference *)
   apply not_true_is_false. intro Hex. apply existsb_exists in Hex. destruct Hex as [e [Hin He]].
-  rewrite Forall_forall in Hy. specialize (Hy e Hin).
-  assert (Hge : forallb (fun item => is_eq (compare e item)) vs = true).
-  { destruct e; try discriminate Hy; simpl in He; exact He. }
-  assert (Hall : forallb (fun value => existsb (fun element => is_eq (compare value element)) arr) vs = true).
-  { apply forallb_forall. intros v Hv. apply existsb_exists. exists e. split; [exact Hin|].
-    rewrite forallb_forall in Hge. rewrite is_eq_sym. apply Hge. exact Hv. }
-  congruence.
+  rewrite Forall_forall in Hy.
+  pose proof (all_holds_scalar vs e (Hy e Hin) He) as Hre.
+  apply not_true_iff_false in Hr. apply Hr.
+  unfold all_ref in *. apply forallb_forall. intros v Hv. rewrite forallb_forall in Hre.
+  specialize (Hre v Hv).
+  assert (Hx : expand e = [e]) by (specialize (Hy e Hin); destruct e; try reflexivity; discriminate).
+  rewrite Hx in Hre. simpl in Hre. rewrite orb_false_r in Hre.
+  cbn [expand existsb]. apply orb_true_iff. right. apply existsb_exists. exists e. split; assumption.
 Qed.
 
 Lemma d1_arr_elems arr : d1 (VArr arr) = true -> Forall (fun e => not_array e = true) arr.
@@ -726,37 +734,30 @@ Qed.
 
 Lemma leaf_all d ps x :
   d1 (VDoc d) = true -> good_path (split_path ps) = true ->
-  core_op false x "$all" (VDoc d) (split_path ps) = true ->
+  core_op strict x "$all" (VDoc d) (split_path ps) = true ->
   eval_op x "$all" d ps = Ok (ref_op x "$all" (VDoc d) (split_path ps)).
 Proof.
   intros H1 Hg Hc. rewrite core_op_all in Hc. rewrite ref_op_all.
   rewrite eval_op_eq. cbn [lookup_expr assoc expr_table String.eqb Ascii.eqb Bool.eqb].
   destruct x as [| | ? | ? | ? | ? ? | ? | ? | vs | ? ? | ? | ? | ? | ? ? | ? ?]; try discriminate.
-  apply andb_prop in Hc. destruct Hc as [Hf Hvs]. apply negb_true_iff in Hf.
-  destruct (All_no_fan d ps Hg Hf) as [y [HA HR]].
+  apply negb_true_iff in Hc.
+  destruct (All_no_fan d ps Hg Hc) as [y [HA HR]].
   unfold match_all.
   destruct vs as [|v0 vs].
   - rewrite (unwind_ok (fun _ => false)) by (intro c; reflexivity).
     f_equal. induction (unwind_candidates d ps false true); [reflexivity|assumption].
-  - rewrite (unwind_ok (fun field =>
-               (match field with
-                | VArr arr => forallb (fun value => existsb (fun element => is_eq (compare value element)) arr) (v0 :: vs)
-                | _ => false
-                end) || forallb (fun item => is_eq (compare field item)) (v0 :: vs)))
-      by (intro c; reflexivity).
+  - rewrite (unwind_ok (all_holds (v0 :: vs)))
+      by (intro c; unfold all_test, all_holds; destruct c; reflexivity).
     unfold unwind_candidates, some_unexpanded. rewrite HA, HR. simpl negb. simpl orb.
     f_equal.
-    transitivity (forallb (fun v => existsb (fun c => req c v) (expand y)) (v0 :: vs));
-      [|cbn [existsb]; rewrite orb_false_r; reflexivity].
-    assert (Hy : forall arr, y = VArr arr -> Forall (fun e => not_array e = true) arr).
-    { intros arr ->. apply d1_arr_elems.
-      assert (G : get (VDoc d) (split_path ps) true false = (VArr arr, false)).
-      { specialize (HA false false). rewrite All_eq in HA.
-        destruct (get (VDoc d) (split_path ps) true false) as [v n].
-        destruct n; simpl in HA; [destruct v; discriminate|]. exact HA. }
-      exact (get_single_d1 _ _ _ _ H1 G). }
-    assert (Hne : v0 :: vs <> []) by discriminate.
-    exact (all_equiv (v0 :: vs) y Hne Hvs Hy).
+    transitivity (all_ref (v0 :: vs) y); [|unfold all_ref; cbn [existsb]; rewrite orb_false_r; reflexivity].
+    apply all_equiv.
+    intros arr ->. apply d1_arr_elems.
+    assert (G : get (VDoc d) (split_path ps) true false = (VArr arr, false)).
+    { specialize (HA false false). rewrite All_eq in HA.
+      destruct (get (VDoc d) (split_path ps) true false) as [v n].
+      destruct n; simpl in HA; [destruct v; discriminate|]. exact HA. }
+    exact (get_single_d1 _ _ _ _ H1 G).
 Qed.
 
 (* ---------------------------------------------------------------- *)
@@ -773,19 +774,19 @@ Proof. unfold core_ops. induction exps as [|[k y] t IH]; [reflexivity|]. simpl. 
 Definition op_agrees (y : value) : Prop :=
   forall d ps op,
     d1 (VDoc d) = true -> d3 (VDoc d) = true -> good_path (split_path ps) = true ->
-    core_op false y op (VDoc d) (split_path ps) = true ->
+    core_op strict y op (VDoc d) (split_path ps) = true ->
     eval_op y op d ps = Ok (ref_op y op (VDoc d) (split_path ps)).
 
 Definition field_agrees (y : value) : Prop :=
   forall d ps,
     d1 (VDoc d) = true -> d3 (VDoc d) = true ->
-    core_field (core_op false) y (VDoc d) (split_path ps) = true ->
+    core_field (fan_of strict) (core_op strict) y (VDoc d) (split_path ps) = true ->
     field_cond eval_op y d ps = Ok (ref_field ref_op y (VDoc d) (split_path ps)).
 
 Lemma ops_loop_ref d ps exps :
   d1 (VDoc d) = true -> d3 (VDoc d) = true -> good_path (split_path ps) = true ->
   Forall (fun kv => op_agrees (snd kv)) exps ->
-  forallb (fun e => is_op (fst e) && core_op false (snd e) (fst e) (VDoc d) (split_path ps)) exps = true ->
+  forallb (fun e => is_op (fst e) && core_op strict (snd e) (fst e) (VDoc d) (split_path ps)) exps = true ->
   ops_loop eval_op exps d ps
   = Ok (forallb (fun e => is_op (fst e) && ref_op (snd e) (fst e) (VDoc d) (split_path ps)) exps).
 Proof.
@@ -835,6 +836,7 @@ Qed.
 Lemma field_of_ops x : sub op_agrees x -> field_agrees x.
 Proof.
   intros Hsub d ps H1 H3 Hc. unfold core_field in Hc.
+  change (fan_of strict (VDoc d) (split_path ps)) with (fans_out (VDoc d) (split_path ps)) in Hc.
   apply andb_prop in Hc. destruct Hc as [Hg Hc].
   assert (Hlit : forall y, negb (fans_out (VDoc d) (split_path ps)) || plain_scalar y = true ->
                  eval_op y "" d ps = Ok (some_expanded (VDoc d) (split_path ps) (fun c => req c y)))
@@ -872,7 +874,7 @@ Proof. unfold elem_root, elem_path. simpl app. rewrite fans_out_doc. reflexivity
 Lemma elem_process q e :
   Forall (fun kv => op_agrees (snd kv) /\ field_agrees (snd kv)) q ->
   d1 e = true -> d3 e = true ->
-  forallb (elem_cond_core false e) q = true ->
+  forallb (elem_cond_core e) q = true ->
   process_nr eval_op q [("item", e)] "item" = Ok (forallb (elem_cond_ref e) q).
 Proof.
   intros HF H1 H3.
@@ -905,7 +907,7 @@ Proof. intros H Hin. apply d1_arr in H. rewrite Forall_forall in H. destruct (H 
 Lemma leaf_elem d ps q :
   d1 (VDoc d) = true -> d3 (VDoc d) = true -> good_path (split_path ps) = true ->
   Forall (fun kv => op_agrees (snd kv) /\ field_agrees (snd kv)) q ->
-  core_op false (VDoc q) "$elemMatch" (VDoc d) (split_path ps) = true ->
+  core_op strict (VDoc q) "$elemMatch" (VDoc d) (split_path ps) = true ->
   eval_op (VDoc q) "$elemMatch" d ps = Ok (ref_op (VDoc q) "$elemMatch" (VDoc d) (split_path ps)).
 Proof.
   intros H1 H3 Hg HF Hc. rewrite core_op_elem in Hc. rewrite ref_op_elem.
@@ -987,7 +989,7 @@ Proof. apply op_field_ref. Qed.
 
 Theorem field_ref d ps x :
   d1 (VDoc d) = true -> d3 (VDoc d) = true ->
-  core_field (core_op false) x (VDoc d) (split_path ps) = true ->
+  core_field (fan_of strict) (core_op strict) x (VDoc d) (split_path ps) = true ->
   field_cond eval_op x d ps = Ok (ref_field ref_op x (VDoc d) (split_path ps)).
 Proof. intros H1 H3 Hc. apply (proj2 (op_field_ref x)); assumption. Qed.
 
@@ -1002,21 +1004,21 @@ Section Top.
   Hypothesis H3 : d3 root = true.
 
   Definition top_agrees (x : value) : Prop :=
-    (forall k, core_top false x k root = true -> top_eval x k d = Ok (ref_top x k root)) /\
+    (forall k, core_top strict x k root = true -> top_eval x k d = Ok (ref_top x k root)) /\
     match x with
-    | VDoc q => core_filter false root q = true -> Match d q = Ok (holds_at root q)
+    | VDoc q => core_filter strict root q = true -> Match d q = Ok (holds_at root q)
     | _ => True
     end.
 
   (* the per-item functions of core_top / ref_top are core_filter / holds_at *)
   Definition sub_core (item : value) : bool :=
-    match item with VDoc q => core_filter false root q | _ => false end.
+    match item with VDoc q => core_filter strict root q | _ => false end.
   Definition sub_ref (item : value) : bool :=
     match item with VDoc q => holds_at root q | _ => false end.
 
   Lemma core_top_op x k :
     is_op k = true ->
-    core_top false x k root =
+    core_top strict x k root =
     match x with
     | VArr [] => false
     | VArr items =>
@@ -1059,12 +1061,12 @@ Section Top.
   Qed.
 
   Lemma filter_agrees q :
-    Forall (fun kv => top_agrees (snd kv)) q -> core_filter false root q = true ->
+    Forall (fun kv => top_agrees (snd kv)) q -> core_filter strict root q = true ->
     Match d q = Ok (holds_at root q).
   Proof.
     induction q as [|[k y] t IH]; intros HF Hc; [reflexivity|].
     inversion HF as [|? ? Hy Ht]; subst.
-    change (core_filter false root ((k, y) :: t)) with (core_top false y k root && core_filter false root t) in Hc.
+    change (core_filter strict root ((k, y) :: t)) with (core_top strict y k root && core_filter strict root t) in Hc.
     apply andb_prop in Hc. destruct Hc as [Hcy Hct].
     rewrite Match_cons. destruct Hy as [Hy _]. simpl snd in Hy. rewrite (Hy k Hcy), (IH Ht Hct).
     change (holds_at root ((k, y) :: t)) with (ref_top y k root && holds_at root t).
@@ -1086,7 +1088,7 @@ Section Top.
         * rewrite top_or, ref_top_or. exact Ho.
         * rewrite top_nor_or, top_or, ref_top_nor, Ho. reflexivity.
       + rewrite top_eval_field by exact Hk.
-        assert (Hc' : core_field (core_op false) x root (split_path k) = true).
+        assert (Hc' : core_field (fan_of strict) (core_op strict) x root (split_path k) = true).
         { destruct x; simpl in Hc; rewrite Hk in Hc; exact Hc. }
         assert (Hr : ref_top x k root = ref_field ref_op x root (split_path k)).
         { destruct x; simpl; rewrite Hk; reflexivity. }
@@ -1117,12 +1119,13 @@ Theorem match_ref_partial d f :
 Proof. exact (match_ref d f). Qed.
 
 (* ---------------------------------------------------------------- *)
-(* the boundaries of the core domain: concrete inputs on which lungo's
-   matcher and the reference semantics differ (each was also run against the
-   real mongokit.Match).  `b` is what lungo answers. *)
+(* where lungo's matcher and the reference semantics differ: concrete inputs,
+   each also run against the real mongokit.Match.  `lungo` is what lungo
+   answers; the reference answers the opposite. *)
 
+(* (a) OUTSIDE the property's domain D1-D4: why the domain ends where it does *)
 Definition differs (d f : doc) (lungo : bool) : Prop :=
-  Match d f = Ok lungo /\ RefMatch.holds d f = negb lungo /\ coreb d f = false.
+  Match d f = Ok lungo /\ RefMatch.holds d f = negb lungo /\ domainb d f = false.
 
 (* outside D2: null against a fan-out path — MongoDB matches (the second
    element has no b), lungo drops missing entries while collecting *)
@@ -1149,43 +1152,78 @@ Example array_operand_fanout_refuted :
           [("a.b", VArr [VInt32 3])] false.
 Proof. vm_compute. repeat split. Qed.
 
-(* found while testing the statement of match_ref on generated pairs
-   (family matchref); each is excluded from `core` by a clause of core_op *)
-
-(* $type "null" also selects documents that lack the field *)
-Example type_null_missing_refuted :
-  differs [("b", VInt32 1)] [("a", VDoc [("$type", VString "null")])] true.
-Proof. vm_compute. repeat split. Qed.
+(* (b) INSIDE D1-D4: genuine defects of lungo, recorded in known_findings.json
+   (property C10) under the signature given by domain_class; match_ref is
+   proved on the domain minus these classes *)
+Definition finding (d f : doc) (lungo : bool) (signature : string) : Prop :=
+  Match d f = Ok lungo /\ RefMatch.holds d f = negb lungo /\ domain_class d f = DFinding signature.
 
 (* under fan-out array leaves are merged into their elements: $type "array"
    no longer sees them *)
 Example type_array_fanout_refuted :
-  differs [("a", VArr [VDoc [("b", VArr [VInt32 1])]])] [("a.b", VDoc [("$type", VString "array")])] false.
+  finding [("a", VArr [VDoc [("b", VArr [VInt32 1])]])] [("a.b", VDoc [("$type", VString "array")])]
+          false "C10:type-array-under-fanout".
 Proof. vm_compute. repeat split. Qed.
 
 (* under fan-out $exists tests the merged collection for emptiness: an empty
    array at the path does not count as existing *)
 Example exists_fanout_empty_refuted :
-  differs [("a", VArr [VDoc [("b", VArr [])]])] [("a.b", VDoc [("$exists", VBool true)])] false.
+  finding [("a", VArr [VDoc [("b", VArr [])]])] [("a.b", VDoc [("$exists", VBool true)])]
+          false "C10:exists-under-fanout-empty-array".
 Proof. vm_compute. repeat split. Qed.
 
 (* $size under (two-level) fan-out measures the collected result lists *)
 Example size_fanout_refuted :
-  differs [("a", VArr [VDoc [("b", VArr [VDoc [("c", VArr [VInt32 1; VInt32 2])]])]])]
-          [("a.b.c", VDoc [("$size", VInt32 2)])] false.
+  finding [("a", VArr [VDoc [("b", VArr [VDoc [("c", VArr [VInt32 1; VInt32 2])]])]])]
+          [("a.b.c", VDoc [("$size", VInt32 2)])] false "C10:size-under-fanout".
 Proof. vm_compute. repeat split. Qed.
 
 (* ... and takes an empty collection for an empty array *)
 Example size_fanout_phantom_refuted :
-  differs [("a", VArr [VDoc [("b", VArr [])]])] [("a.b.c", VDoc [("$size", VInt32 0)])] true.
+  finding [("a", VArr [VDoc [("b", VArr [])]])] [("a.b.c", VDoc [("$size", VInt32 0)])]
+          true "C10:size-under-fanout".
 Proof. vm_compute. repeat split. Qed.
 
-(* $all with an array operand next to an element operand: lungo needs all
-   operands to be elements, or all to equal the field *)
-Example all_mixed_refuted :
-  differs [("a", VArr [VInt32 1; VInt32 2])]
-          [("a", VDoc [("$all", VArr [VInt32 1; VArr [VInt32 1; VInt32 2]])])] false.
+(* a numeric segment that indexes into an array of documents: the reference
+   also follows the segment as a field name of each element, which yields
+   Missing candidates (matched by null); lungo takes the index only *)
+Example index_null_refuted :
+  finding [("a", VArr [VDoc [("b", VInt32 2)]])] [("a.0.b", VDoc [("$ne", VNull)])]
+          true "C10:null-with-index-into-document-array".
 Proof. vm_compute. repeat split. Qed.
+
+(* (c) repaired in lungo (known_findings.json, status fixed): the two inputs
+   that used to differ are now inside `core`, where match_ref applies *)
+Example type_null_missing_repaired :
+  core [("b", VInt32 1)] [("a", VDoc [("$type", VString "null")])] /\
+  Match [("b", VInt32 1)] [("a", VDoc [("$type", VString "null")])] = Ok false /\
+  Match [("a", VNull)] [("a", VDoc [("$type", VString "null")])] = Ok true.
+Proof. vm_compute. repeat split. Qed.
+
+Example all_mixed_repaired :
+  core [("a", VArr [VInt32 1; VInt32 2])]
+       [("a", VDoc [("$all", VArr [VInt32 1; VArr [VInt32 1; VInt32 2]])])] /\
+  Match [("a", VArr [VInt32 1; VInt32 2])]
+        [("a", VDoc [("$all", VArr [VInt32 1; VArr [VInt32 1; VInt32 2]])])] = Ok true /\
+  Match [("a", VArr [VInt32 1; VInt32 2])]
+        [("a", VDoc [("$all", VArr [VInt32 1; VInt32 3])])] = Ok false.
+Proof. vm_compute. repeat split. Qed.
+
+(* the classification is exhaustive and `core` is its first class *)
+Lemma domain_class_core d f : domain_class d f = DCore <-> core d f.
+Proof.
+  unfold domain_class, core. destruct (coreb d f); [split; reflexivity|].
+  split; [|discriminate].
+  destruct (negb (domainb d f)); [discriminate|].
+  repeat match goal with |- context [if ?b then _ else _] => destruct b end; discriminate.
+Qed.
+
+Lemma domain_class_outside d f : domain_class d f = DOutside -> domainb d f = false.
+Proof.
+  unfold domain_class. destruct (coreb d f); [discriminate|].
+  destruct (domainb d f); [|reflexivity]. simpl.
+  repeat match goal with |- context [if ?b then _ else _] => destruct b end; discriminate.
+Qed.
 
 (* non-vacuity of match_ref_partial: covered pairs with fan-out, both answers *)
 Example match_ref_example :
